@@ -15,6 +15,7 @@ import (
 
 func init() {
 	verifrt.Register("H_C01_CorruptRestart", H_C01_CorruptRestart)
+	verifrt.Register("H_C01_SupersededLive", H_C01_SupersededLive)
 }
 
 // A file arrives completely but its bytes are not the announced version (a
@@ -77,4 +78,68 @@ func H_C01_CorruptRestart(v *verifrt.T) {
 	v.Quiesce()
 	v.Assert(v.FileIs(filepath.Join(e.final, "a"), "v1"), "C01 after retransmission the delivered file is the announced version, byte for byte")
 	v.Assert(e.s.GetFileStatus("a", v.Now()) == sts.ConfirmPassed, "C01 the retransmitted file is confirmed")
+}
+
+// A validated file held for its predecessor is superseded, while it waits, by a
+// completely received newer version of the same name (same or other size); no
+// restart. When the predecessor arrives, what is delivered under that name is
+// byte-identical to the version whose hash the receive log states, every log
+// record of the name describes bytes that were delivered under it, and the
+// newer version is what ends up delivered.
+func H_C01_SupersededLive(v *verifrt.T) {
+	size1, size2 := v.Int64("size1"), v.Int64("size2")
+	v.Assume(size1 >= 1)
+	v.Assume(size1 <= 4096)
+	v.Assume(size2 >= 1)
+	v.Assume(size2 <= 4096)
+	h1 := v.Version("v1", size1)
+	h2 := v.Version("v2", size2)
+	hA := v.Version("A", size1)
+	e := newEnv(v)
+	fb := filepath.Join(e.final, "b")
+	// the consumer checks every delivery at the moment it is logged + moved:
+	// here after each step
+	var delivered []string
+	check := func() {
+		if v.Exists(fb) {
+			n := len(e.logger.records)
+			var last *vRecord
+			for k := n - 1; k >= 0; k-- {
+				if e.logger.records[k].name == "b" {
+					last = &e.logger.records[k]
+					break
+				}
+			}
+			v.Assert(last != nil, "C01 a delivered file has a record in the receive log")
+			if last != nil {
+				tag := "v1"
+				if last.hash == h2 {
+					tag = "v2"
+				}
+				v.Assert(v.FileIs(fb, tag), "C01 the MD5 of a delivered file equals the hash written for it in the receive log")
+				delivered = append(delivered, tag)
+			}
+			osRemoveFile(fb)
+		}
+	}
+	v.Assert(e.sendPart("b", "a", h1, size1, 0, size1, "v1") == nil, "part received")
+	v.Quiesce()
+	v.Assert(v.Exists(filepath.Join(e.stage, "b"+waitExt)), "set-up: v1 of b is held waiting for a")
+	v.Assert(e.sendPart("b", "a", h2, size2, 0, size2, "v2") == nil, "the newer version is received")
+	v.Quiesce()
+	check()
+	v.Assert(len(delivered) == 0, "C04 b is not delivered before its predecessor a")
+	v.Assert(e.sendPart("a", "", hA, size1, 0, size1, "A") == nil, "part received")
+	v.Quiesce()
+	check()
+	v.FireTimers()
+	v.Quiesce()
+	check()
+	v.Assert(len(delivered) >= 1 && delivered[len(delivered)-1] == "v2", "C01/C03 the newer version of the held file is what ends up delivered")
+	for _, r := range e.logger.records {
+		if r.name == "b" && r.hash == h1 {
+			v.Assert(len(delivered) >= 2 && delivered[0] == "v1", "C01 a version is logged as received only if its bytes were delivered")
+		}
+	}
+	v.Reach("released")
 }
